@@ -18,7 +18,7 @@ tvars == <<tid, l, o, dr, vars>>
 
 O0 == [ptr |-> "open", queue |-> [i \in 1..MaxSize |-> NONE], open |-> {}, holds |-> [t \in Threads |-> {}],
        lastio |-> <<>>, cur |-> [t \in Threads |-> <<>>], got |-> [t \in Threads |-> <<>>], outs |-> {},
-       dropped |-> FALSE, alive |-> Procs, waiting |-> {}, pre |-> {}, sep |-> {}, parked |-> {}]
+       dropped |-> FALSE, alive |-> Procs, waiting |-> {}, pre |-> {}, sep |-> {}, parked |-> {}, slots |-> {}, swapok |-> TRUE]
 
 SeqSet(s) == {s[i] : i \in 1..Len(s)}
 Hold(ob, t, c) == IF t \in Threads /\ c # NONE THEN [ob.holds EXCEPT ![t] = @ \cup {c}] ELSE ob.holds
@@ -33,19 +33,22 @@ Upd(ob, e) ==
       [] e.e = "block" -> [b EXCEPT !.parked = @ \cup {e.t}]
       [] e.e = "get" /\ e.res = "ok" /\ e.q = 1 ->
              [b EXCEPT !.queue = IF @ # <<>> THEN Pop(@) ELSE @, !.holds = Hold(b, e.t, e.c),
-                       !.sep = @ \ {e.t}, !.parked = @ \ {e.t}]
+                       !.sep = @ \ {e.t}, !.parked = @ \ {e.t},
+                       !.slots = IF e.t \in Threads THEN @ \cup {e.t} ELSE @]
       [] e.e = "get" /\ e.res = "empty" -> [b EXCEPT !.sep = @ \ {e.t}]
       [] e.e = "new" -> [b EXCEPT !.holds = Hold(b, e.t, e.c)]
       [] e.e = "dial" -> [b EXCEPT !.open = @ \cup {e.s}]
       [] e.e = "sclose" -> [b EXCEPT !.open = @ \ {e.s}]
       [] e.e = "io" -> [b EXCEPT !.lastio = IF e.t \in Threads THEN <<e.t, e.c, "io">> ELSE <<>>]
       [] e.e = "cclose" -> [b EXCEPT !.lastio = <<e.t, e.c, "close">>]        \* HTTPConnection.close() called by e.t
-      [] e.e = "put" /\ e.q = 1 -> [b EXCEPT !.queue = IF e.res = "ok" THEN Append(@, e.c) ELSE @, !.holds = Unhold(b, e.t)]
-      [] e.e = "swap" -> [b EXCEPT !.ptr = "closed", !.pre = b.parked]
+      [] e.e = "put" /\ e.q = 1 -> [b EXCEPT !.queue = IF e.res = "ok" THEN Append(@, e.c) ELSE @, !.holds = Unhold(b, e.t),
+                                            !.slots = @ \ {e.t}]
+      [] e.e = "swap" -> [b EXCEPT !.ptr = "closed", !.pre = b.parked,
+                                   !.swapok = (Len(b.queue) + Cardinality(b.slots) = MaxSize)]
       [] e.e = "end" -> [b EXCEPT !.outs = @ \cup {[o |-> e.out, closed |-> b.ptr = "closed"]},
                                   !.got = IF e.t \in Threads THEN [@ EXCEPT ![e.t] = IF e.out = "resp" THEN <<e.bt, e.br>> ELSE <<>>]
                                                               ELSE @,
-                                  !.holds = Unhold(b, e.t)]
+                                  !.holds = Unhold(b, e.t), !.slots = @ \ {e.t}]
       [] e.e = "done" -> [b EXCEPT !.alive = @ \ {e.t}]
       [] e.e = "deadlock" -> [b EXCEPT !.waiting = SeqSet(e.set)]
       [] e.e = "probe" -> [b EXCEPT !.open = SeqSet(e.set), !.dropped = TRUE]
